@@ -175,6 +175,11 @@ func runC12(c *Ctx) {
 			if dc := d.Claims(); dc.Issuer != cd.Issuer || dc.IssuedAt != cd.IssuedAt || dc.ID != cd.ID || (kind != "generic" && (dt != typ || dv != ver)) {
 				c.violation("C12: the decoder reports other stamps than Encode set", inp)
 			}
+			// the object as the FIRST Encode left it (the second Encode below may fall into the next second)
+			postTerm, postIat := "", cl.Claims().IssuedAt
+			if i < perKindCoq && t0 == t1 {
+				postTerm = em.Val(ty, elem(cl))
+			}
 			// the id ignores the previous id and the payload; repeated Encode in the same second gives the same id
 			prevID := cd.ID
 			cd.ID = "garbage-" + fmt.Sprint(i)
@@ -206,9 +211,8 @@ func runC12(c *Ctx) {
 			}
 			distinct[cd.ID] = true
 			c.count("encoded_" + kind)
-			if i < perKindCoq && t0 == t1 {
-				// undo the second encode's effect on the dump: the values are the same except the id we garbled and restored
-				w.add(fmt.Sprintf("(%s, %s, %s, %s, %s, %s, %s)", kindCoq[kind], vterm, coqStr(s.pub), coqZ(cl.Claims().IssuedAt), schema.JSONTerm(text), coqStr(id), em.Val(ty, elem(cl))), inp)
+			if postTerm != "" {
+				w.add(fmt.Sprintf("(%s, %s, %s, %s, %s, %s, %s)", kindCoq[kind], vterm, coqStr(s.pub), coqZ(postIat), schema.JSONTerm(text), coqStr(id), postTerm), inp)
 			}
 			if i%101 == 0 {
 				c.sample(map[string]interface{}{"kind": kind, "id": cd.ID, "hashed_text": string(text)})
